@@ -31,6 +31,8 @@ package main
 import (
 	"fmt"
 	"math/big"
+	"runtime"
+	"sort"
 	"strings"
 	"time"
 
@@ -1239,6 +1241,200 @@ func runCase(run *hx.Run, c *caseSpec, opHist *[256]int) (class string) {
 
 // ---------------------------------------------------------------------------------------------------------------------
 
+// ---------------------------------------------------------------------------------------------------------------------
+// precompile lattice: every address 1..9 in every rule set, called directly (EVM.Call from an EOA) with inputs that ANNOUNCE
+// extreme lengths, at gas 0 / required-1 / required / plenty. Judged: no panic, no hang, and the bytes the Go runtime
+// allocated during the call (runtime.MemStats.TotalAlloc is monotonic and unaffected by GC; the harness is single-threaded
+// apart from the watchdog, which allocates nothing) at most allocBase + allocPerGas·(gas charged). The bound is generous by
+// two orders of magnitude over the model's 64·(gas+1)+32 for modexp buffers, so it cannot alarm on the unchanged tree, and
+// still far below what a buffer of an announced-but-unpaid length costs.
+
+const (
+	allocBase   = 1 << 20 // 1 MiB: EVM/StateDB bookkeeping of one call, crypto scratch
+	allocPerGas = 256     // bytes per unit of gas charged
+)
+
+type preCase struct {
+	addr   byte
+	input  []byte
+	maxLen uint64 // largest announced (uint64-truncated) length, for ordering
+	tag    string
+}
+
+func word32(v *big.Int) []byte {
+	w := make([]byte, 32)
+	b := v.Bytes()
+	if len(b) > 32 {
+		b = b[len(b)-32:]
+	}
+	copy(w[32-len(b):], b)
+	return w
+}
+
+func precompileLattice(run *hx.Run, sets []ruleSet, rng *hx.Rng) {
+	lens := []*big.Int{big.NewInt(0), big.NewInt(1), big.NewInt(32), pow2(16), pow2(26), pow2(31), pow2(62),
+		new(big.Int).Sub(pow2(64), big.NewInt(1)), pow2(255)}
+	var cases []preCase
+	r := rng.Fork(0x9e07)
+	data96 := r.Bytes(96)
+	ff96 := make([]byte, 96)
+	for i := range ff96 {
+		ff96[i] = 0xff
+	}
+	for _, b := range lens {
+		for _, e := range lens {
+			for _, m := range lens {
+				hdr := append(append(word32(b), word32(e)...), word32(m)...)
+				mx := uint64(0)
+				for _, v := range []*big.Int{b, e, m} {
+					if u := v.Uint64(); u > mx {
+						mx = u
+					}
+				}
+				tag := fmt.Sprintf("modexp-hdr(%s,%s,%s)", hexBig(b), hexBig(e), hexBig(m))
+				cases = append(cases, preCase{5, hdr, mx, tag}, preCase{5, append(append([]byte{}, hdr...), data96...), mx, tag + "+data"})
+				if b.BitLen() <= 6 && m.BitLen() <= 6 {
+					cases = append(cases, preCase{5, append(append([]byte{}, hdr...), ff96...), mx, tag + "+ff"})
+				}
+			}
+		}
+	}
+	// every address (incl. 9 = not a precompile): 0-length, short, word-boundary, pairing-boundary, large real inputs, and
+	// modexp-shaped headers announcing huge lengths
+	sizes := []int{0, 1, 31, 32, 33, 64, 127, 128, 129, 191, 192, 193, 384, 1000, 4096, 65536, 1 << 20}
+	for a := 1; a <= 9; a++ {
+		for _, n := range sizes {
+			z := make([]byte, n)
+			cases = append(cases, preCase{byte(a), z, 0, fmt.Sprintf("zeros(%d)", n)})
+			if n > 0 && n <= 65536 {
+				cases = append(cases, preCase{byte(a), r.Bytes(n), 0, fmt.Sprintf("random(%d)", n)})
+				f := make([]byte, n)
+				for i := range f {
+					f[i] = 0xff
+				}
+				cases = append(cases, preCase{byte(a), f, 0, fmt.Sprintf("ff(%d)", n)})
+			}
+		}
+		if a != 5 {
+			for _, v := range []*big.Int{pow2(26), pow2(62), pow2(255)} {
+				hdr := append(append(word32(v), word32(v)...), word32(v)...)
+				cases = append(cases, preCase{byte(a), hdr, 0, "huge-claimed-header"})
+			}
+		}
+	}
+	sort.SliceStable(cases, func(i, j int) bool { return cases[i].maxLen < cases[j].maxLen })
+	plenty := uint64(2 * blockLimit)
+	exactCap := uint64(10000000)
+	if run.Thorough() {
+		exactCap = 100000000
+	}
+	allocViolated := false
+	for si, rs := range sets {
+		num := new(big.Int).SetUint64(rs.height)
+		for ci, c := range cases {
+			if allocViolated && c.maxLen >= 1<<31 {
+				run.Count("precompile:skipped-after-alloc-violation")
+				continue // an unpaid allocation was already seen; do not escalate to sizes that kill the process
+			}
+			if si != 2 && si != 4 && c.addr == 5 && ci%3 != 0 {
+				continue // where 0x05 is not a precompile a third of the modexp lattice is enough
+			}
+			addr := common.BytesToAddress([]byte{c.addr})
+			probe := vm.NewEVM(vm.Context{BlockNumber: num}, nil, rs.cfg, vm.Config{})
+			_, _, _, byz := vm.VerifC07Rules(probe)
+			pcs := vm.PrecompiledContractsHomestead
+			if byz {
+				pcs = vm.PrecompiledContractsByzantium
+			}
+			gases := []uint64{0, plenty}
+			if p, ok := pcs[addr]; ok {
+				req := uint64(0)
+				if out := hx.Safe(func() string { req = p.RequiredGas(c.input); return "" }); out != "" {
+					run.Violate("panic", "precompile-RequiredGas-panics", fmt.Sprintf("rules=%s addr=%d input=%x", rs.name, c.addr, clip(c.input)), out)
+					continue
+				}
+				if req <= exactCap {
+					gases = append(gases, req)
+					if req > 0 {
+						gases = append(gases, req-1)
+					}
+				}
+			}
+			for _, gas := range gases {
+				desc := fmt.Sprintf("precompile-lattice rules=%s addr=%d gas=%d %s input(%d)=%x", rs.name, c.addr, gas, c.tag, len(c.input), clip(c.input))
+				run.Current(desc)
+				sdb, err := state.New(common.Hash{}, state.NewDatabase(aquadb.NewMemDatabase()))
+				if err != nil {
+					panic(err)
+				}
+				sdb.CreateAccount(addrS)
+				sdb.AddBalance(addrS, big.NewInt(1000000))
+				ctx := vm.Context{CanTransfer: canTransfer, Transfer: transfer, GetHash: func(n uint64) common.Hash { return common.Hash{} },
+					Origin: addrS, GasPrice: big.NewInt(1), GasLimit: blockLimit, BlockNumber: num, Time: big.NewInt(1500000000), Difficulty: big.NewInt(131072)}
+				evm := vm.NewEVM(ctx, sdb, rs.cfg, vm.Config{})
+				var (
+					ret    []byte
+					left   uint64
+					rerr   error
+					m0, m1 runtime.MemStats
+				)
+				runtime.ReadMemStats(&m0)
+				out := hx.Safe(func() string {
+					ret, left, rerr = evm.Call(vm.AccountRef(addrS), addr, c.input, gas, new(big.Int))
+					return ""
+				})
+				runtime.ReadMemStats(&m1)
+				if strings.HasPrefix(out, "panic") {
+					sig := out
+					if len(sig) > 120 {
+						sig = sig[:120]
+					}
+					for _, d := range "0123456789" {
+						sig = strings.ReplaceAll(sig, string(d), "#")
+					}
+					run.Violate("panic", "precompile:"+sig, desc, out)
+					run.Count("precompile:panic")
+					continue
+				}
+				if left > gas {
+					run.Violate("gas-overuse", "precompile-leftover>given", desc, fmt.Sprintf("given=%d leftover=%d", gas, left))
+					continue
+				}
+				charged := gas - left
+				alloc := m1.TotalAlloc - m0.TotalAlloc
+				if bound := uint64(allocBase) + allocPerGas*charged; alloc > bound {
+					run.Violate("precompile-alloc", fmt.Sprintf("precompile-0x%02x-allocates-beyond-paid-gas", c.addr), desc,
+						fmt.Sprintf("allocated %d bytes during the call, gas charged %d, bound %d (= %d + %d·gas)", alloc, charged, bound, allocBase, allocPerGas))
+					allocViolated = true
+				}
+				run.Count("precompile:" + errClass(rerr))
+				switch {
+				case alloc > 1<<24:
+					run.Count("precompile-alloc:>16MiB")
+				case alloc > 1<<16:
+					run.Count("precompile-alloc:64KiB-16MiB")
+				default:
+					run.Count("precompile-alloc:<=64KiB")
+				}
+				if len(c.input) <= 4096 {
+					ol := fmt.Sprint(len(ret))
+					if c.addr == 1 && rerr == nil {
+						ol = "-" // ecrecover: 32 or 0 depending on values the model does not interpret
+					}
+					run.Case(fmt.Sprintf("pre %s %d %d %s", rs.name, c.addr, gas, hx.Hex(c.input)), fmt.Sprintf("pre-%s %d %s %d", errClass(rerr), left, ol, alloc))
+				}
+			}
+		}
+	}
+}
+
+func clip(b []byte) []byte {
+	if len(b) > 200 {
+		return b[:200]
+	}
+	return b
+}
+
 func gasBudget(r *hx.Rng) uint64 {
 	lattice := []uint64{0, 1, 2, 3, 5, 20, 21, 100, 699, 700, 701, 1000, 2300, 2301, 5000, 9000, 9700, 20000, 21000, 25000, 32000, 32003, 53000, 100000,
 		200000, 1000000, blockLimit - 1, blockLimit}
@@ -1409,6 +1605,9 @@ func main() {
 			}
 		}
 	}
+	tpre := time.Now()
+	precompileLattice(run, sets, rng)
+	famTime["precompile-lattice"] = time.Since(tpre).Seconds()
 	run.Notes["family_seconds"] = famTime
 	// opcode coverage
 	covered := 0
